@@ -712,7 +712,39 @@ def ex_setqops(p, seed):
         lists[typ].append(obj)
     where = "set=%r" % ([alpha[c][:4] for c in seq],)
     cls_sig = "n=%d" % len(seq)
-    ok, sq = A.call(SetQOperations, states=lists["state"], gates=lists["gate"], povms=lists["povm"], mprocesses=lists["mprocess"])
+    if p.get("prev") is not None:
+        # history: the set object first holds ANOTHER content, is used for every kind of conversion, and is then re-filled through
+        # its public setters; everything below must hold for the new content
+        prev_lists = {mode: [] for mode in MODE_ORDER}
+        for pos, code in enumerate(p["prev"]):
+            typ, m, flag, tag, shape = alpha[code]
+            cf = Cfg({"typ": typ, "flag": flag, "m": m, "sys": tag, "shape": shape})
+            prev_lists[typ].append(construct(typ, cf.c, cf.from_var(generic_vec(cf.nvar, seed, 25 + pos)), flag, shape))
+        where = "set=%r after the same object held %r" % ([alpha[c][:4] for c in seq], [alpha[c][:4] for c in p["prev"]])
+        cls_sig = "after-setters:n=%d" % len(seq)
+        ok, sq = A.call(SetQOperations, states=prev_lists["state"], gates=prev_lists["gate"], povms=prev_lists["povm"], mprocesses=prev_lists["mprocess"])
+        if ok:
+            def touch():
+                n0 = sq.size_var_total()
+                sq.var_total()
+                for t in range(n0):
+                    info = sq.local_info_from_index_var_total(t)
+                    sq.index_var_total_from_local_info(info["mode"], info["index_operations"], info["index_var_local"])
+                if n0:
+                    sq.set_qoperations_from_var_total(planted(n0))
+            A.call(touch)
+
+            def refill():
+                sq.states = lists["state"]
+                sq.gates = lists["gate"]
+                sq.povms = lists["povm"]
+                sq.mprocesses = lists["mprocess"]
+            ok, err = A.call(refill)
+            if not ok:
+                sq = err
+        out.count("sq_histories")
+    else:
+        ok, sq = A.call(SetQOperations, states=lists["state"], gates=lists["gate"], povms=lists["povm"], mprocesses=lists["mprocess"])
     out.ops += 1
     if not ok:
         fail("SetQOperations:constructor-raises:%s" % cls_sig, "%s: %s" % (where, A.fmt_exc(sq)))
@@ -911,14 +943,17 @@ def families(tier, seed):
     for name, maxlen in (("Q1", 5 if deep else 4), ("Q3", 4 if deep else 3), ("Q2", 4 if deep else 3), ("mixed", 4 if deep else 3)):
         for seq in ordered_sets(alphabet_of(name), maxlen):
             sq.append({"alphabet": name, "seq": seq})
+    # histories: every ordered pair (previous content, new content) of sets with <= 2 operations on one qubit (thorough: <= 3)
+    small = ordered_sets(alphabet_of("Q1"), 3 if deep else 2)
+    sqh = [{"alphabet": "Q1", "seq": b, "prev": a} for a in small for b in small if a != b]
     lay = [{"sys_a": a, "sys_b": b, "ma": ma, "mb": mb, "flag": f}
            for (a, b) in (("Q1", "Q1"), ("Q1", "Q3")) for (ma, mb) in ((2, 2), (2, 3), (3, 2)) for f in (True, False)]
-    return [("roundtrip", rt), ("indices", ix), ("numvars", nv), ("setqops", sq), ("layout", lay)]
+    return [("roundtrip", rt), ("indices", ix), ("numvars", nv), ("setqops", sq), ("setqops_history", sqh), ("layout", lay)]
 
 
 def execute(family, params, seed):
     return {"roundtrip": ex_roundtrip, "indices": ex_indices, "numvars": ex_numvars, "setqops": ex_setqops,
-            "layout": ex_layout}[family](params, seed)
+            "setqops_history": ex_setqops, "layout": ex_layout}[family](params, seed)
 
 
 def guards(summary):
